@@ -1,7 +1,7 @@
 (* C15 - every 32-bit scalar value encodes to reference bytes and decodes to itself. *)
 From Coq Require Import List ZArith Bool Lia.
 From Pico Require Import Base.Res Base.Mach Wire.Wire Schema.Types Schema.Scalar Ref.Ref
-  Wire.ZigZagProofs Schema.ScalarProofs Enc.Enc Dec.Dec Dec.ReaderProofs.
+  Wire.ZigZagProofs Schema.ScalarProofs Enc.Enc Dec.Dec Dec.ReaderProofs gen.ConvGen gen.TypesTable.
 Import ListNotations.
 Open Scope Z_scope.
 
@@ -66,6 +66,15 @@ Theorem C15_dec_element : forall k v rest, scalar_ok k (VInt v) = true ->
   dec_payload k (enc_payload k (VInt v) ++ rest) = (VInt v, Z.of_nat (length (enc_payload k (VInt v)))).
 Proof. intros. apply dec_enc_payload. assumption. Qed.
 
+(* The same closed forms hold of the terms REGENERATED from conv.go / wire.go on this run
+   (T-conv), and the scalar table in the generator source is the one the model mirrors (T-table). *)
+Theorem C15_source_zigzag32 : forall v, in_s 32 v -> gen_encode_zigzag32 v = (if v <? 0 then - 2 * v - 1 else 2 * v).
+Proof. intros v H. rewrite gen_encode_zigzag32_ok. exact (encode_zigzag32_spec v H). Qed.
+Theorem C15_source_unzigzag32 : forall y, 0 <= y < 2 ^ 32 -> gen_decode_zigzag32 y = unzz y.
+Proof. intros y H. rewrite gen_decode_zigzag32_ok. exact (decode_zigzag32_spec y H). Qed.
+Theorem C15_source_table : gen_types_table = Schema.TableSpec.expected_types_table.
+Proof. exact types_table_ok. Qed.
+
 Example C15_nonvacuous :
   scalar_ok KSint32 (VInt (-2147483648)) = true /\ closed_form KSint32 (-2147483648) = [255; 255; 255; 255; 15] /\
   scalar_ok KSfixed32 (VInt (-1)) = true /\ closed_form KSfixed32 (-1) = [255; 255; 255; 255] /\
@@ -76,3 +85,5 @@ Print Assumptions C15_enc.
 Print Assumptions C15_enc_element.
 Print Assumptions C15_dec.
 Print Assumptions C15_dec_element.
+Print Assumptions C15_source_zigzag32.
+Print Assumptions C15_source_unzigzag32.
